@@ -7,7 +7,9 @@ flipped or the boundary moved while the branches stay.  rules/guards_frozen.json
 (tools/freeze_guards.py); the rule compares, per function and operand pair that still exists, the leave-early
 conditions.  Branches where both or neither edge leave at once (value selection, two substantial arms, loop
 conditions) have no defined polarity and are not recorded.  Inside a loop the same is done relative to the
-iteration: the edge that reaches the loop header again (`continue`) or leaves the loop (`break`) within a few blocks.  Boolean conditions that are not comparisons (a flag, a predicate call such as `is_empty()`)
+iteration: the edge that reaches the loop header again (`continue`) or leaves the loop (`break`) within a few blocks.
+Short-circuit chains are recorded as "the second condition is evaluated when the first is {…}": `a && b` and `a || b`
+differ exactly there, nested `if`s and De Morgan forms of the same condition do not.  Boolean conditions that are not comparisons (a flag, a predicate call such as `is_empty()`)
 are recorded the same way: "left early when it is true / false"."""
 import json, os
 import argsel
@@ -179,6 +181,55 @@ def sites(ctx, fn):
                 A, B = B, A
                 cases = {_SWAP[c] for c in cases}
             out.setdefault(A + ' @@ ' + B + suffix, set()).add(','.join(sorted(cases)))
+        # short-circuit chains: which outcome of one condition leads straight to the evaluation of the next
+        # (`a && b`: b is evaluated when a holds; `a || b`: when it does not) — the same CFG for nested ifs and De Morgan forms
+        def cond_key(bb_, t_):
+            e_, tr_ = norm_bool(b.pexpr_operand(t_['op'], 0, frozenset(), (bb_, 't')), True)
+            c_ = _as_cmp(e_)
+            if c_ is not None:
+                A_, B_ = canon(c_[1], 0, 1), canon(c_[2], 0, 1)
+                cs_ = set(_CASES[c_[0]])
+                if not tr_:
+                    cs_ = _ALL - cs_
+                if B_ < A_:
+                    A_, B_ = B_, A_
+                    cs_ = {_SWAP[x_] for x_ in cs_}
+                return A_ + ' @@ ' + B_, cs_, _ALL
+            if e_[0] in ('call', 'field', 'param', 'upvar') and not (e_[0] == 'call' and e_[1].split('::')[-1] in ('poll', 'next', 'branch')):
+                return canon(e_, 0, 1), ({'true'} if tr_ else {'false'}), {'true', 'false'}
+            return None
+
+        def next_switch(start):
+            x, n_ = start, 0
+            while n_ < 8:
+                t_ = b.term(x)
+                if t_.get('t') == 'switch':
+                    return x if t_.get('ty') == 'bool' and not t_.get('x', '').startswith('m:') else None
+                if t_.get('t') in ('return', 'yield', 'unreachable', 'resume'):
+                    return None
+                su = [s_ for s_ in b.succ(x) if not b.blocks[s_].get('cleanup')]
+                if len(su) != 1 or len([p_ for p_ in b.pred(su[0]) if p_ in b.reach and not b.blocks[p_].get('cleanup')]) != 1:
+                    return None
+                x, n_ = su[0], n_ + 1
+            return None
+        for bb, t, _e in switch_exprs(b):
+            if t.get('ty') != 'bool':
+                continue
+            tt, tf = bool_targets(t)
+            if tt is None or tf is None:
+                continue
+            ka = cond_key(bb, t)
+            if ka is None:
+                continue
+            nt, nf = next_switch(tt), next_switch(tf)
+            if (nt is None) == (nf is None):
+                continue
+            nb_, on_true = (nt, True) if nt is not None else (nf, False)
+            kb = cond_key(nb_, b.term(nb_))
+            if kb is None or kb[0] == ka[0]:
+                continue
+            holds = ka[1] if on_true else (ka[2] - ka[1])
+            out.setdefault(ka[0] + ' @@ => ' + kb[0] + ' @@ <then>', set()).add(','.join(sorted(holds)))
         # predicates: a closure or function whose result *is* the comparison (`.find(|x| x.name == name)`, `fn is_x() { a < b }`)
         for bb in sorted(b.reach):
             cands = []
@@ -221,7 +272,7 @@ def collect(ctx):
     return out
 
 
-FLOORS = {'C01': 69, 'C02': 69, 'C03': 97, 'C04': 61, 'C05': 49, 'C06': 60, 'C07': 13, 'C08': 9, 'C09': 58, 'C10': 38, 'C11': 7, 'C12': 60, 'C13': 211, 'C14': 65, 'C15': 31, 'C16': 147, 'C17': 52, 'C18': 34, 'C19': 36, 'C20': 35}   # ~70 % of the guards counted on the pinned tree
+FLOORS = {'C01': 96, 'C02': 95, 'C03': 137, 'C04': 84, 'C05': 90, 'C06': 100, 'C07': 20, 'C08': 13, 'C09': 119, 'C10': 71, 'C11': 8, 'C12': 84, 'C13': 501, 'C14': 91, 'C15': 46, 'C16': 238, 'C17': 98, 'C18': 49, 'C19': 49, 'C20': 73}   # ~70 % of the records counted on the pinned tree
 
 
 def check(ctx, rep, prop):
@@ -243,7 +294,11 @@ def check(ctx, rep, prop):
             parts = key.split(' @@ ')
             a_, b_ = parts[0], parts[1]
             where_ = 'the iteration' if parts[-1] == '<iteration>' else 'the function'
-            if parts[-1] == '<result>':
+            if parts[-1] == '<then>':
+                first_, second_ = key.split(' @@ => ')[0], key.split(' @@ => ')[1].rsplit(' @@ ', 1)[0]
+                msg = 'the condition on `%s` is now evaluated when the condition on `%s` is {%s} (pinned tree: {%s}): `&&` and `||` were exchanged, or a nested test moved to the other branch' % (
+                    second_.replace(' @@ ', ' / '), first_.replace(' @@ ', ' / '), ' | '.join(cur[key]), ' | '.join(want))
+            elif parts[-1] == '<result>':
                 msg = 'the predicate comparing `%s` with `%s` now holds when {%s} (pinned tree: when {%s})' % (a_, b_, ' | '.join(cur[key]), ' | '.join(want))
             else:
                 what = ('on `%s`' % a_) if b_ == '<bool>' else ('comparing `%s` with `%s`' % (a_, b_))
